@@ -180,6 +180,10 @@ def _ctx_of_block(prefix: str) -> str | None:
         return parent_path(prefix[:-1])
     if prefix.endswith("/h"):
         return parent_path(prefix[:-2])
+    last = prefix.rsplit("/", 1)[-1]
+    if last.startswith("T") and last[1:].isdigit():
+        # block run by an extra user thread on the same context as the 'threads' statement
+        return parent_path(prefix.rsplit("/", 1)[0])
     return prefix
 
 
